@@ -17,7 +17,9 @@ LEVEL_NOTE = ("theorems hold for every rule set, path and every regex semantics 
               "reading: global_deny and global_patterns apply to every file, also to files governed by a directory rule")
 
 KEYS = ["src", "src/models", "tests", "/", "lib", "docs", "src/models/deep", "sr"]
-PATTERNS = [r".*\.py$", r"test_.*", r".*_model\.py$", r"^(?!src/).*\.ts$", r".*\.(md|txt)$", r"__init__\.py$", r"tmp", r"\.yaml$", r"^src/", r".*"]
+PATTERNS = [r".*\.py$", r"test_.*", r".*_model\.py$", r"^(?!src/).*\.ts$", r".*\.(md|txt)$", r"__init__\.py$", r"tmp", r"\.yaml$", r"^src/", r".*",
+            # anchors that belong to one alternative only, anchors inside groups, an end anchor first, inline flags, a lazy prefix
+            r"^docs/|\.md$", r"^tests/|_model\.py$|^top", r"(^lib/|models/)", r"\.ts$|^src2/", r"(?s)^.*deep.*$", r"^$|helper", r".*?models/.*?\.py", r"\Asrc/|file\.py\Z"]
 PATHS = ["src/a.py", "src/models/user_model.py", "src/models/x.py", "src/models/deep/d_model.py", "src2/b.py", "srcfile.py", "tests/test_a.py",
          "tests/helper.py", "lib/c.ts", "README.md", "docs/guide.md", "src/a.ts", "top.py", "src/models/__init__.py", "notes.TMP", "lib/TMPfile.py",
          ".thailint.yaml"]
